@@ -119,6 +119,92 @@ fn corpus() -> Vec<Case> {
                 ],
             }
         },
+        // Bottom alignment witnesses (draw_to_term's Bottom path; Coq: C19_bottom_* of props/C19.v)
+        {
+            let hb = |x: &str| BarInit { len: Some(10), fin: Fin::AndLeave, tmpl: vec![TPart::Lit(x.into()), TPart::Pos], target: TInit::Hidden };
+            let mk = |w: u16, h: u16, ops: Vec<Op>| Case {
+                w,
+                h,
+                fail_at: vec![],
+                fail_from: None,
+                mp: TInit::Term(None),
+                bars: vec![hb("a"), hb("b"), hb("c"), hb("d")],
+                ops: ops.into_iter().enumerate().map(|(i, o)| ((i as u64 + 1) * 1_000_000_000, o)).collect(),
+            };
+            let start = |extra: Vec<Op>| {
+                let mut v = vec![
+                    Op::SetAlign(true),
+                    Op::Insert(Loc::End, 0),
+                    Op::Insert(Loc::End, 1),
+                    Op::Insert(Loc::End, 2),
+                    Op::Tick(0),
+                    Op::Tick(1),
+                    Op::Tick(2),
+                ];
+                v.extend(extra);
+                v
+            };
+            // finding candidate D26: region exactly as tall as the terminal, empty frames scroll blank rows away
+            mk(5, 3, start(vec![Op::MClear, Op::MClear, Op::MClear, Op::Tick(0)]))
+        },
+        {
+            // fix 951c29f: "x" printed by a member must survive above the padding of the shrunken region
+            let hb = |x: &str| BarInit { len: Some(10), fin: Fin::AndLeave, tmpl: vec![TPart::Lit(x.into()), TPart::Pos], target: TInit::Hidden };
+            Case {
+                w: 40,
+                h: 50,
+                fail_at: vec![],
+                fail_from: None,
+                mp: TInit::Term(None),
+                bars: vec![hb("a"), hb("b"), hb("c"), hb("d")],
+                ops: vec![
+                    Op::SetAlign(true),
+                    Op::Insert(Loc::End, 0),
+                    Op::Insert(Loc::End, 1),
+                    Op::Insert(Loc::End, 2),
+                    Op::Tick(0),
+                    Op::Tick(1),
+                    Op::Tick(2),
+                    Op::Remove(0),
+                    Op::Finish(1, Fin::AndClear),
+                    Op::Println(2, "x".into()),
+                    Op::Tick(2),
+                ]
+                .into_iter()
+                .enumerate()
+                .map(|(i, o)| ((i as u64 + 1) * 1_000_000_000, o))
+                .collect(),
+            }
+        },
+        {
+            // fix 8b11f76: empty frames under Bottom move nothing; a new bar lands at the bottom of the same region
+            let hb = |x: &str| BarInit { len: Some(10), fin: Fin::AndLeave, tmpl: vec![TPart::Lit(x.into()), TPart::Pos], target: TInit::Hidden };
+            Case {
+                w: 40,
+                h: 50,
+                fail_at: vec![],
+                fail_from: None,
+                mp: TInit::Term(None),
+                bars: vec![hb("a"), hb("b"), hb("c"), hb("d")],
+                ops: vec![
+                    Op::SetAlign(true),
+                    Op::Insert(Loc::End, 0),
+                    Op::Insert(Loc::End, 1),
+                    Op::Tick(0),
+                    Op::Tick(1),
+                    Op::Finish(0, Fin::AndClear),
+                    Op::Finish(1, Fin::AndClear),
+                    Op::Tick(0),
+                    Op::Tick(1),
+                    Op::Insert(Loc::End, 3),
+                    Op::Tick(3),
+                ]
+                .into_iter()
+                .enumerate()
+                .map(|(i, o)| ((i as u64 + 1) * 1_000_000_000, o))
+                .collect(),
+            }
+        },
         // Coq: C19_example_cut_then_room - frame taller than the terminal, then it shrinks and fits
         mk(
             2,
